@@ -155,6 +155,8 @@ class Axis(GetSetDelAttrMixin, AbstractAxis):
         values = self.values[item]
         if not isinstance(values, np.ndarray):
             return values # if collapsed to scalar, just return it
+        if type(item) is slice:
+            values = values.copy() # a view would tie the labels (and the cached ordering) to the source axis
         newaxis = Axis(values, self.name, tol=self.tol, **self.attrs)
         # slices keep the ordering
         if self._monotonic and type(item) is slice:
